@@ -135,6 +135,7 @@ class Obligation:
         self.seconds = 0.0
         self.model = None
         self.note = ''
+        self.global_facts = []
 
 
 _fresh_counter = itertools.count()
@@ -196,6 +197,8 @@ class Exec:
         self.notes = []
         self.solver_seconds = 0.0
         self.ghost_env = {}
+        self.global_facts = []      # path-independent facts about the entry heap (added to every obligation)
+        self.global_ids = set()
 
     # ------------------------------------------------------------------ naming
     def site(self, kind, node=None):
@@ -291,6 +294,18 @@ class Exec:
     def get_field(self, st, recv, field, node=None):
         arr = self.harr(st, 'f:' + field)
         t = z3.Select(arr, rv(recv.t))
+        if not self.spec_mode and self.entry is not None:
+            # entry-heap well-formedness: a reference stored in the heap when the function was entered points to an object
+            # that existed then (stated for the initial field array at this receiver)
+            a0 = self.entry.heap.get('f:' + field)
+            if a0 is None:
+                a0 = self.harr(self.entry, 'f:' + field)
+            t0 = z3.Select(a0, rv(recv.t))
+            fact = z3.Implies(is_r(t0), rv(t0) < self.entry_alloc())
+            if fact.get_id() not in self.global_ids:
+                # a fact about the entry heap only: valid on every path, kept once per function
+                self.global_ids.add(fact.get_id())
+                self.global_facts.append(fact)
         fty = self.field_type(recv.ty, field) if recv.ty else None
         cls = self.recv_class(recv) if recv.ty else None
         if fty is None and cls is not None and REG.fields.get(cls.qual) is not None or (fty is None and cls is not None and self.declaring_classes(cls, field)):
@@ -422,6 +437,7 @@ class Exec:
     # ------------------------------------------------------------------ obligations
     def prove(self, name, pc, goal, detail='', kind='proof'):
         ob = Obligation(self.prefix + '/' + name, list(pc), goal, kind=kind, detail=detail)
+        ob.global_facts = self.global_facts       # shared list: complete by the time the obligation is discharged
         self.obls.append(ob)
         return ob
 
